@@ -416,6 +416,23 @@ def replay_tf(case, md, kind):
                         r = r - spt * T * env[nm]
                     out.append(complex(r))
                 return np.array(out)
+            if spt == sv and all(nm in md for nm in names):
+                # the solver's own assignment: if it satisfies the real block equations and its output is not the documented
+                # one, the equations admit a wrong (or undetermined) output -- also when the linear system below is singular
+                xm = [complex(float(md[nm])) for nm in names]
+                rm = resid(xm)
+                ym = xm[names.index(case.out)]
+                if kind == 'tf':
+                    den_m = _num_eval(case.den, vals, spt)
+                    exp_m = None if abs(den_m) < 1e-9 else _num_eval(case.num, vals, spt) / den_m * vals['uin']
+                else:
+                    exp_m = _num_eval(lambda g_, s_: case.static(g_), vals, 0.0)
+                if exp_m is not None and np.all(np.abs(rm) < 1e-9) and abs(ym - exp_m) > 1e-7 * max(1.0, abs(exp_m)):
+                    return dict(block=case.name, kind=kind, params=vals, s=str(spt), flags=flags,
+                                equations={nm: bvars[nm].e_str for nm in names},
+                                output_from_equations=str(ym), documented=str(exp_m),
+                                desc=f'{case.name}: block equations are satisfied by Y={ym:.6g} at s={spt}, params={vals}; '
+                                     f'documented transfer function gives {exp_m:.6g}')
             r0 = resid([0.0] * n)
             A = np.zeros((n, n), dtype=complex)
             for k in range(n):
